@@ -474,8 +474,8 @@ Proof. intros tb. reflexivity. Qed.
 
 Lemma valid_run_all : forall ks, Forall (fun k => key_nonempty k = true) ks -> valid_run ks = length ks.
 Proof.
-  induction ks as [|k ks IH]; intros H; [reflexivity|]. inversion H; subst. cbn. rewrite H2.
-  f_equal. apply IH. assumption.
+  induction ks as [|k ks IH]; intros H; [reflexivity|]. inversion H; subst. cbn [valid_run]. rewrite H2.
+  cbn [length]. rewrite IH by assumption. reflexivity.
 Qed.
 
 Lemma ikeys_nonempty : forall tb, wf_table tb -> Forall (fun k => key_nonempty k = true) (ikeys tb).
@@ -971,14 +971,16 @@ Proof. vm_compute. split; reflexivity. Qed.
    smallest key) but Valid() is false on it, so a table that starts with it looks empty to
    forward iteration, Seek and SeekToLast, and Get does not find the empty key *)
 Definition ex_empty := mkS [] 5 (Some [1]).
-Theorem C11_empty_key_refuted :
+(* before f30cabd the iterator treated the empty key as "not positioned" and this table read as
+   empty (the former C11_empty_key_refuted); now the empty key is a key like any other *)
+Theorem C11_empty_key_ok :
   let es := [ex_empty; ex_a] in
   let tb := write (fun _ _ => true) true es in
   ascending es = true /\
-  collect tb 3 (ti_seek_first tb) = [] /\
-  ti_valid tb (fst (ti_seek tb [97])) = false /\
-  ti_valid tb (ti_seek_last tb) = false /\
-  t_get tb [] = GNotFound /\ t_get tb [97] = GNotFound.
+  collect tb 3 (ti_seek_first tb) = es /\
+  ti_cur tb (fst (ti_seek tb [97])) = Some ex_a /\
+  ti_cur tb (ti_seek_last tb) = Some ex_a /\
+  t_get tb [] = GVal [1] /\ t_get tb [97] = gres_of ex_a.
 Proof. vm_compute. repeat split. Qed.
 
 (* ------------------------------------------------------------------------------------- *)
